@@ -78,4 +78,80 @@ pub fn classify(
 
 type Pred = fn(&Config, &[Op], &Op, &JobResult, &Model, &Discrepancy) -> bool;
 
-pub static PREDICATES: &[(&str, Pred)] = &[];
+pub static PREDICATES: &[(&str, Pred)] = &[
+    ("K-C13-block-id-collision", k_c13_block_id_collision),
+    ("K-C06-tail-id-drift", k_c06_tail_id_drift),
+];
+
+/// The durable cursor of a consumer that is in the writer's tail names the block by its
+/// allocator id; recovery re-derives ids by position. A block that was handed out but
+/// never written (the first append on a topic was rejected, or an empty batch opened a
+/// topic) and that ends up last in its file shifts the ids of all later blocks by one, so
+/// after a restart the persisted tail block is not found and the consumer starts over.
+/// Failing step matched: StrictlyAtOnce; at or after a reopen/restart; pure redelivery
+/// (higher count / longer drain, nothing lost or foreign); and before that restart some
+/// topic received an append-type op although nothing was ever written to it.
+fn k_c06_tail_id_drift(cfg: &Config, ops: &[Op], _last: &Op, _res: &JobResult, pre: &Model, x: &Discrepancy) -> bool {
+    if cfg.cons != Consistency::Strict || !x.pure_redelivery || !matches!(x.class, "count" | "read.order") {
+        return false;
+    }
+    let Some(ri) = ops.iter().rposition(|o| matches!(o, Op::Reopen | Op::Restart)) else { return false };
+    let mut touched: std::collections::BTreeSet<u8> = Default::default();
+    let mut long_topic = false;
+    for op in &ops[..ri] {
+        match op {
+            Op::Append { t, .. } | Op::Batch { t, .. } | Op::BatchN { t, .. } => {
+                touched.insert(*t);
+            }
+            Op::AppendLongTopic { .. } => long_topic = true,
+            _ => {}
+        }
+    }
+    // a topic that got an append-type op but holds no entry: its writer block is unwritten
+    let unwritten = touched.iter().any(|t| pre.topic_ro(*t).map(|tm| tm.log.is_empty()).unwrap_or(true));
+    long_topic || unwritten
+}
+
+fn is_consuming(op: &Op) -> bool {
+    matches!(op, Op::ReadNext { ckpt: true, .. } | Op::BatchRead { ckpt: true, start: None, .. } | Op::Drain { .. })
+}
+
+/// Two live instances in one process number their blocks from 1 and share the
+/// process-global block tracker, which keeps the first registration of an id. Consumption
+/// by one instance is therefore credited to the other instance's file, and the reclaimer
+/// may delete that file with unconsumed entries in it.
+/// Failing step matched: after a ReclaimTick, an instance observes pure loss (fewer / later
+/// entries than expected, or a lower count - nothing foreign, duplicated or reordered)
+/// although a *different* instance, opened in the same process before the tick, did the
+/// consuming reads that preceded the tick.
+fn k_c13_block_id_collision(_cfg: &Config, ops: &[Op], _last: &Op, _res: &JobResult, _pre: &Model, x: &Discrepancy) -> bool {
+    if !x.pure_loss || !matches!(x.class, "count" | "read.order" | "read.empty") {
+        return false;
+    }
+    // replay instance selection symbolically
+    let mut cur: u8 = 0;
+    let mut opened: std::collections::BTreeSet<u8> = Default::default();
+    let mut consumers_before_tick: std::collections::BTreeSet<u8> = Default::default();
+    let mut consumers: std::collections::BTreeSet<u8> = Default::default();
+    let mut ticked = false;
+    for op in ops.iter() {
+        match op {
+            Op::Open { inst, .. } => {
+                opened.insert(*inst);
+                cur = *inst;
+            }
+            Op::Use { inst } => cur = *inst,
+            Op::ReclaimTick => {
+                ticked = true;
+                consumers_before_tick = consumers.clone();
+            }
+            o if is_consuming(o) => {
+                consumers.insert(cur);
+            }
+            _ => {}
+        }
+    }
+    // `cur` is now the instance that observed the loss
+    ticked && opened.len() >= 2 && consumers_before_tick.iter().any(|i| *i != cur)
+}
+
